@@ -62,7 +62,10 @@ def handle (j : Json) : Json :=
     let renames := (arr j "renames").map fun r => match asArr r with
       | [a, b] => (parsePath a, parsePath b)
       | _ => ([], [])
-    let toP := fromP.map fun p => toPath JediModel.Gen.C07.toPathMode renames p
+    match calcToPath JediModel.Gen.C07.toPathNoneGuard JediModel.Gen.C07.toPathLoop
+        JediModel.Gen.C07.toPathMode renames fromP with
+    | .error _ => jobj [("error", jstr "calculate_to_path: AttributeError")]
+    | .ok toP =>
     match normLines (chars j "old"), normLines (chars j "new") with
     | some a, some b =>
       let gs := parseGroups (obj j "groups")
